@@ -136,6 +136,16 @@ func (a *adminInst) state() string {
 	return fmt.Sprint(a.lb.ListBackends(), a.cfg.LoadBalancer.Strategy)
 }
 
+// c10LongToken is a token of n characters, no two positions of which need be equal.
+func c10LongToken(n int) string {
+	const alphabet = "ABCDEFGHIJKLMNOPQRSTUVWXYZabcdefghijklmnopqrstuvwxyz0123456789-_."
+	b := make([]byte, n)
+	for i := range b {
+		b[i] = alphabet[(i*7+i/len(alphabet)*3+11)%len(alphabet)]
+	}
+	return string(b)
+}
+
 func sublists(entries []string, max int) [][]string {
 	out := [][]string{nil}
 	for i := range entries {
@@ -387,7 +397,10 @@ func TestVerifC10(t *testing.T) {
 	if idx%shards == shard {
 		os.Unsetenv("VERIF_UNSET_VAR")
 		os.Setenv("VERIF_SET_VAR", "expanded")
-		for _, tok := range []string{"adm1n$ecret2024", "${VERIF_UNSET_VAR}", "$VERIF_UNSET_VAR", "${VERIF_SET_VAR}", "pre$VERIF_SET_VAR", "tok en", "#hash", "a:b", "'q'", "\"dq\"", "t\u00f6k\u20acn", "%41bc", "{{ .Token }}", "~", "null", "0123", "true"} {
+		for _, tok := range []string{"adm1n$ecret2024", "${VERIF_UNSET_VAR}", "$VERIF_UNSET_VAR", "${VERIF_SET_VAR}", "pre$VERIF_SET_VAR", "tok en", "#hash", "a:b", "'q'", "\"dq\"", "t\u00f6k\u20acn", "%41bc", "{{ .Token }}", "~", "null", "0123", "true",
+			// tokens of some length (a JWT, a base64 text of 64 random bytes): exactly is exactly,
+			// however long - lengths on both sides of the sizes a fixed buffer might have
+			c10LongToken(31), c10LongToken(32), c10LongToken(33), c10LongToken(63), c10LongToken(64), c10LongToken(65), c10LongToken(88), c10LongToken(127), c10LongToken(128), c10LongToken(129), c10LongToken(255), c10LongToken(256), c10LongToken(257), c10LongToken(1000), c10LongToken(4097)} {
 			inst := newAdminInst(nil, nil, tok)
 			cut := strings.IndexAny(tok, "$ #:'\"%{")
 			variants := []struct {
@@ -399,6 +412,21 @@ func TestVerifC10(t *testing.T) {
 				{"exact", []string{"Bearer " + tok}, true},
 				{"empty-bearer", []string{"Bearer "}, false},
 				{"expanded", []string{"Bearer " + os.ExpandEnv(tok)}, os.ExpandEnv(tok) == tok},
+			}
+			if len(tok) >= 31 {
+				type v = struct {
+					label string
+					lines []string
+					exact bool
+				}
+				variants = append(variants, v{"all-but-the-last-character", []string{"Bearer " + tok[:len(tok)-1]}, false},
+					v{"last-character-changed", []string{"Bearer " + tok[:len(tok)-1] + "#"}, false}, v{"one-character-more", []string{"Bearer " + tok + "x"}, false})
+				for _, k := range []int{8, 16, 32, 64, 128, 256, 512, 1024, 4096} {
+					if k < len(tok) {
+						variants = append(variants, v{fmt.Sprintf("first-%d-characters", k), []string{"Bearer " + tok[:k]}, false},
+							v{fmt.Sprintf("first-%d-characters-then-other-text", k), []string{"Bearer " + tok[:k] + strings.Repeat("z", len(tok)-k)}, false})
+					}
+				}
 			}
 			if cut > 0 {
 				variants = append(variants, struct {
@@ -441,7 +469,7 @@ func TestVerifC10(t *testing.T) {
 		}
 	}
 	r.AddScenario(vres.Scenario{Name: "admin-access-control", Engine: "W", Evaluations: evals, Distinct: int64(outs.N()), Outcomes: outs.N(),
-		Rule:  "IP product: allow-list x deny-list (all sub-lists of up to two entries of the 16-entry menu, in the thorough tier also all triples over a 9-entry core (overlapping networks, both families, mapped, match-all, malformed, blank)) x 14 peer addresses (IPv4, IPv6, IPv4-mapped, zoned, non-canonical spellings) x 6 forged-header variants x endpoints; token product: token configured or not x 11 Authorization spellings x 10 endpoint/method pairs x peers; 17 tokens with characters a configuration layer might interpret, loaded through the real LoadConfig from YAML; judged by a net/netip reference policy; distinct = (reference verdict, served) classes",
+		Rule:  "IP product: allow-list x deny-list (all sub-lists of up to two entries of the 16-entry menu, in the thorough tier also all triples over a 9-entry core (overlapping networks, both families, mapped, match-all, malformed, blank)) x 14 peer addresses (IPv4, IPv6, IPv4-mapped, zoned, non-canonical spellings) x 6 forged-header variants x endpoints; token product: token configured or not x 11 Authorization spellings x 10 endpoint/method pairs x peers; 17 tokens with characters a configuration layer might interpret and 15 tokens of 31 .. 4097 characters (with credentials that are prefixes, one character short, one long, or equal up to a power of two), loaded through the real LoadConfig from YAML; judged by a net/netip reference policy; distinct = (reference verdict, served) classes",
 		Bound: fmt.Sprintf("sub-lists of size <= %d (%d x %d list pairs)", maxList, len(lists), len(lists)), Exhaustive: true, Sample: sample,
 		Extra: map[string]interface{}{"wall_s": time.Since(start).Seconds()}})
 }
